@@ -518,6 +518,18 @@ func routeFacts(f *facts) {
 		})
 		f.bool["route_id_uses_join_split"] = bp(j && sp)
 	}
+	f.note["route_dir_test"] = "queuedirs.go listBufferQueueIDs: the conditions on the stat result of a root-directory entry under which the entry is skipped"
+	f.strs["route_dir_test"] = nil
+	if fd := fn("buffer/hybridbuffer/queuedirs.go", "listBufferQueueIDs", ""); fd != nil {
+		var conds []string
+		inspect(fd.Body, func(n ast.Node) bool {
+			if is, ok := n.(*ast.IfStmt); ok && strings.Contains(src(is.Cond), "stat.Mode") {
+				conds = append(conds, src(is.Cond))
+			}
+			return true
+		})
+		f.strs["route_dir_test"] = conds
+	}
 	f.note["route_dir_hash_length"] = "queuedirs.go queueDirHashLength"
 	f.nat["route_dir_hash_length"] = nil
 	if v, ok := evalInt("buffer/hybridbuffer/queuedirs.go", pkgValue("buffer/hybridbuffer/queuedirs.go", "queueDirHashLength"), 0); ok {
